@@ -36,13 +36,61 @@ func runC06(c *Ctx) {
 	syncM := RecvWhere(ToFn(fileSync), VFieldOf(fFile, VParam(commit, 0)))
 	closeM := RecvWhere(ToFn(awClose), VParam(commit, 0))
 	renames := CallSites(commit, rename)
+	renameM := ToFn(rename)
+	var realRename ssa.CallInstruction
+	var liftWrapper *liftFrame
+	if len(renames) == 0 {
+		// the rename step as a private method of its own (aw.renameIntoPlace()): its call site stands
+		// for the rename in commit's control flow, provided it fails exactly when os.Rename fails
+		for _, hc := range localCalls(commit) {
+			rs := CallSites(hc.h, rename)
+			if len(rs) != 1 || hc.cc.Parent() != commit {
+				continue
+			}
+			same := true
+			for _, lf := range ReturnLeaves(hc.h, -1) {
+				if IsNilConst(lf.Val) {
+					// nil only after the rename succeeded
+					q := ReachQ{Fn: hc.h, CutEdge: AtomEdges(NilRes("os.Rename==nil", 0, ToFn(rename)))}
+					if lf.Instr != nil {
+						at := lf.Instr
+						q.Sink = func(in ssa.Instruction) bool { return in == at }
+					} else {
+						from, succ := lf.EdgeFrom, lf.EdgeSucc
+						q.SinkEdge = func(b *ssa.BasicBlock, s int) bool { return b == from && s == succ }
+					}
+					if q.Run().Found {
+						same = false
+					}
+				} else if !VRes(0, ToFn(rename))(lf.Val) {
+					same = false
+				}
+			}
+			if !same {
+				continue
+			}
+			wrapper := hc.cc
+			renames = []ssa.CallInstruction{wrapper}
+			realRename = rs[0]
+			renameM = func(ci ssa.CallInstruction) bool { return ci == wrapper }
+			c.touch(hc.h)
+			liftWrapper = &liftFrame{hc.h, hc.cc}
+		}
+	}
 	for i, rc := range renames {
 		c.Guarded(fmt.Sprintf("osutil.(*AtomicFile).commit#rename#%d", i+1), commit, rc, []Clause{
 			{NilRes("aw.Sync()==nil", 0, syncM)},
 			{NilRes("aw.Close()==nil", 0, closeM)},
 		}, &GOpt{CutEdge: prune})
 		a := CallArgs(rc)
+		if realRename != nil {
+			a = CallArgs(realRename)
+			liftCtx = append(liftCtx, *liftWrapper)
+		}
 		c.Check(len(a) == 2 && VFieldOf(fTmp, VParam(commit, 0))(a[0]) && VFieldOf(fTarget, VParam(commit, 0))(a[1]), fmt.Sprintf("osutil.(*AtomicFile).commit#rename-args#%d", i+1), rc.Pos(), "renames aw.tmpname onto aw.target", "the rename is not tmpname -> target")
+		if realRename != nil {
+			liftCtx = liftCtx[:len(liftCtx)-1]
+		}
 	}
 	if len(renames) != 1 {
 		c.Undecided("osutil.(*AtomicFile).commit#rename-count", commit.Pos(), fmt.Sprintf("expected one os.Rename, found %d", len(renames)))
@@ -58,7 +106,7 @@ func runC06(c *Ctx) {
 	dirOpen := CallWhere(ToFn(osOpen), 0, VRes(0, CallWhere(ToFn(fpDir), 0, VFieldOf(fTarget, VParam(commit, 0)))))
 	c.Before("osutil.(*AtomicFile).commit#dir-open-before-rename", commit, SinkCallM(dirOpen), "os.Open(filepath.Dir(aw.target))", rc, &GOpt{CutEdge: prune})
 	dirSync := RecvWhere(ToFn(fileSync), VLive(prune, VRes(0, dirOpen)))
-	okRename := AtomEdges(Not(NilRes("os.Rename==nil", 0, ToFn(rename)))) // cut the failure edge
+	okRename := AtomEdges(Not(NilRes("os.Rename==nil", 0, renameM))) // cut the failure edge
 	nAfter := 0
 	for _, lf := range ReturnLeaves(commit, 0) {
 		if lf.Instr == nil {
@@ -182,6 +230,10 @@ func runC06(c *Ctx) {
 			okCP = false
 		}
 	}
+	if !okCP {
+		// the same thing written out: NewAtomicFile(osb.path, …), io.Copy(aw, bytes.NewReader(data)), aw.Commit()
+		okCP = inlineAtomicWrite(P, cp, VFieldOf(fPath, VParam(cp, 0)), VParam(cp, 1))
+	}
 	c.Check(okCP, "overlord.(*overlordStateBackend).Checkpoint#atomic", cp.Pos(), "the checkpoint verdict is AtomicWriteFile(osb.path, data, …)", "the state checkpoint is no longer (only) an atomic write of the given data to the backend's path")
 	// AtomicWriteFile -> AtomicWriteChown
 	for _, name := range []string{"osutil.AtomicWriteFile", "osutil.AtomicWrite", "osutil.AtomicWriteFileChown"} {
@@ -229,7 +281,7 @@ func runC06(c *Ctx) {
 		if i == 1 {
 			allow = AtomEdges(Cmp("newDir==nil", anyVal, token.EQL, isNilVal))
 		}
-		q := ReachQ{Fn: ar, From: LocOf(arc), CutInstr: isSync, CutEdge: OrCutEdges(prune, okRename, allow, InfeasibleNilEdges(prune)),
+		q := ReachQ{Fn: ar, From: LocOf(arc), CutInstr: isSync, CutEdge: OrCutEdges(prune, AtomEdges(Not(NilRes("os.Rename==nil", 0, ToFn(rename)))), allow, InfeasibleNilEdges(prune)),
 			Sink: func(in ssa.Instruction) bool { _, ok := in.(*ssa.Return); return ok }}
 		r := q.Run()
 		c.Check(!r.Found, fmt.Sprintf("osutil.AtomicRename#dir-synced#%d", i+1), oc.Pos(), "the directory handle is synced on every path from the successful rename to the return", "a return is reachable after the rename without syncing this directory: "+P.PathString(r.Path))
@@ -243,4 +295,52 @@ func cellValue(v ssa.Value) ssa.Value {
 		return nil
 	}
 	return v
+}
+
+// inlineAtomicWrite: fn writes data to path the way osutil.AtomicWriteFile does, written out:
+// one NewAtomicFile(path, …), io.Copy(thatFile, bytes.NewReader(data)), and every verdict of fn is
+// that of NewAtomicFile, io.Copy or Commit, success being Commit's.
+func inlineAtomicWrite(P *Prog, fn *ssa.Function, path, data func(ssa.Value) bool) bool {
+	newAF := P.FuncObj("osutil.NewAtomicFile")
+	commit := P.FuncObj("osutil.(*AtomicFile).Commit")
+	ioCopy := P.FuncObj("io.Copy")
+	newReader := P.FuncObj("bytes.NewReader")
+	nf := CallSites(fn, newAF)
+	if len(nf) != 1 || !path(nf[0].Common().Args[0]) {
+		return false
+	}
+	cps := CallSites(fn, ioCopy)
+	if len(cps) != 1 || !VRes(0, ToFn(newAF))(cps[0].Common().Args[0]) {
+		return false
+	}
+	src, _, ok := CallResult(cps[0].Common().Args[1])
+	if !ok || !ToFn(newReader)(src) || !data(src.Common().Args[0]) {
+		return false
+	}
+	sawCommit := false
+	for _, lf := range ReturnLeaves(fn, 0) {
+		if IsNilConst(lf.Val) {
+			// success without Commit's verdict: only after Commit succeeded
+			if lf.Instr == nil {
+				return false
+			}
+			if (ReachQ{Fn: fn, CutEdge: AtomEdges(OkCall("Commit ok", commit)), Sink: func(in ssa.Instruction) bool { return in == lf.Instr }}).Run().Found {
+				return false
+			}
+			sawCommit = sawCommit || CountAtomEdges(fn, OkCall("Commit ok", commit)) > 0
+			continue
+		}
+		cc, _, isCall := CallResult(lf.Val)
+		if !isCall {
+			return false
+		}
+		if _, is := IsCallTo(cc, commit); is {
+			sawCommit = true
+			continue
+		}
+		if _, is := IsCallTo(cc, newAF, ioCopy); !is {
+			return false
+		}
+	}
+	return sawCommit
 }
